@@ -150,6 +150,12 @@ theorem C06_bye_ends_session (a : Acc) (c s : Nat) (hi : Inv a.h) (hcs : a.h.con
   refine (closeSession_sub _ s ?_).2
   exact processDisconnect_inv _ c hi
 
+/-- The model takes a resumed session off the expiry list whatever connection it had before
+(`resumeTables`); the source does so while the `delete(h.expiredSessions, …)` of the resume branch is not
+nested under a condition on the previous connection — regenerated on every run.  Without it a resumed
+session would still expire ("stays in its room" would fail). -/
+theorem C06_resume_clears_expiry : Generated.Hub.resumeClearsExpiry = true := by decide
+
 private def demo : List Op :=
   [.connect 1, .connect 2, .connect 3, .hello 1 0 .client "alice" false false, .hello 2 0 .client "bob" false false,
    .join 1 "room" "n1" (.ok none ""), .join 2 "room" "n2" (.ok none ""), .disconnect 2,
